@@ -217,6 +217,9 @@ func (w *c13World) runPar2(dir string, d c13Desc, rng *rand.Rand) (tracelog.M, e
 	if d.Data == "one" {
 		disk["b.bin"] = nil
 	}
+	if d.Data == "empty" {
+		disk["b.bin"] = []byte{} // emptied, not deleted
+	}
 	for _, n := range w.names {
 		if disk[n] != nil {
 			ioutil.WriteFile(filepath.Join(dir, n), disk[n], 0644)
@@ -344,11 +347,16 @@ func (w *c13World) runPar1(dir string, d c13Desc, rng *rand.Rand) (tracelog.M, e
 	if d.Data == "one" {
 		disk["b.bin"] = nil
 	}
+	if d.Data == "empty" {
+		disk["b.bin"] = []byte{}
+	}
 	nIntactData := 0
 	for _, n := range w.names {
 		if disk[n] != nil {
 			ioutil.WriteFile(filepath.Join(dir, n), disk[n], 0644)
-			nIntactData++
+			if bytes.Equal(disk[n], w.prot[n]) {
+				nIntactData++
+			}
 		}
 	}
 	real := map[string]string{"index": w.a1.Index, "vol1": volName("set", 1), "vol2": volName("set", 2)}
